@@ -237,6 +237,11 @@ func updateChildren(client *dynamicclientset.ResourceClient, updateStrategy Chil
 
 	for name, obj := range desired {
 		if ssaOptions.Strategy == ApplyStrategyServerSideApply {
+			// We always claim everything we create.
+			ownerRefs := obj.GetOwnerReferences()
+			ownerRefs = append(ownerRefs, *MakeControllerRef(parent))
+			obj.SetOwnerReferences(ownerRefs)
+
 			data, err := json.Marshal(obj)
 			if err != nil {
 				errs = append(errs, err)
